@@ -475,9 +475,21 @@ func (e *Exec) trBin(x *SBin, env *SpecEnv) TV {
 				return TV{Mod(a, pow2(k)), specInt}
 			}
 		}
+		if isSingleBitTerm(b) {
+			return TV{Ite(Eq(b, IntLit(0)), IntLit(0), Ite(Eq(Mod(Div(a, b), IntLit(2)), IntLit(1)), b, IntLit(0))), specInt}
+		}
+		if isSingleBitTerm(a) {
+			return TV{Ite(Eq(a, IntLit(0)), IntLit(0), Ite(Eq(Mod(Div(b, a), IntLit(2)), IntLit(1)), a, IntLit(0))), specInt}
+		}
 		e.needBitAxioms()
 		return TV{mk(SInt, "uf_and", a, b), specInt}
 	case "|":
+		if isSingleBitTerm(b) {
+			return TV{Ite(Or(Eq(b, IntLit(0)), Eq(Mod(Div(a, b), IntLit(2)), IntLit(1))), a, Add(a, b)), specInt}
+		}
+		if isSingleBitTerm(a) {
+			return TV{Ite(Or(Eq(a, IntLit(0)), Eq(Mod(Div(b, a), IntLit(2)), IntLit(1))), b, Add(b, a)), specInt}
+		}
 		e.needBitAxioms()
 		return TV{mk(SInt, "uf_or", a, b), specInt}
 	case "^":
